@@ -12,6 +12,7 @@ AUTH_FAULTS = [
     "A.expected-origin-trailing-slash", "A.expected-origin-surrounding-space",
     "A.expected-origin-ipv6-literal-read-as-glob", "A.expected-origin-star-read-as-glob", "A.origin-unparsable-port",
     "A.origin-unbalanced-bracket", "A.origin-fullwidth-solidus",
+    "A.origin-other-but-toporigin-expected",
     "A.cdj-undecodable-byte-in-origin", "A.cdj-undecodable-byte-in-type", "A.rpid-hash-of-idna-form", "A.rpid-hash-of-lowercase",
     "A.rpid-other", "A.rpid-uppercase", "A.up-clear", "A.uv-clear-required",
     "A.id-other-credential", "A.id-padded", "A.id-std-alphabet", "A.cred-type",
@@ -139,6 +140,11 @@ def build_assertion(cred, *, rp_id="example.com", challenge=b"\x01" * 32, origin
     if "A.ctr-zero-vs-pos" in faults:
         stored = max(stored, 1)
         counter = 0
+    if "A.origin-other-but-toporigin-expected" in faults:
+        # an embedded (cross-origin) ceremony: the caller's origin is the attacker's, the page around it is the RP's.
+        # `origin` is what the RP must compare; `topOrigin` is information
+        cd_kwargs["extra"] = dict(cd_kwargs.get("extra") or {}, crossOrigin=True, topOrigin=cd_origin)
+        cd_origin = "https://evil.example"
     if "A.tb-not-supported" in faults:
         cd_kwargs["token_binding"] = {"status": "not-supported"}
     if "A.id-std-alphabet" in faults:
